@@ -66,6 +66,9 @@ def make_sym():
             return Sym([selector.__name__, self.term])
 
         def _compose_binop(self, selector, other):
+            # a Sym stands for a plain number: like a number it yields to the other operand's hook
+            if hasattr(other, '_rcompose_binop') and not isinstance(other, Sym):
+                return other._rcompose_binop(selector, self)
             return Sym([selector.__name__, self.term, term_of(other)])
 
         def _rcompose_binop(self, selector, other):
@@ -132,6 +135,8 @@ class LiftRunner:
 
     def scalar(self, d):
         if d[0] == 'num':
+            if d[1].startswith('s:'):
+                return d[1][2:]               # a string argument such as clip='minmax'
             return parse_num(d[1])
         if d[0] == 'sym':
             return self.Sym(f's:{d[1]}')
@@ -147,6 +152,8 @@ class LiftRunner:
             def f(x):
                 return Sym(['call', f's:{tag}', self.term_of(x)])
             return self.fn.Function(f)
+        if k == 'fnc':                       # a composed function: -F  (an UnopFunction, not a Function)
+            return -self.build(['fn', d[1]])
         if k == 'strm':
             return self.stm.stream(self.Pseq([self.scalar(i) for i in d[1]]))
         if k == 'pat':
@@ -158,27 +165,33 @@ class LiftRunner:
         if k == 'chan':
             return self.ChannelList([self.build(i) for i in d[1]])
         if k == 'opnd':
-            return self.Operand(self.build(d[1]))
+            return self.Operand(self.scalar(d[1]))
         raise ValueError(d)
 
-    def selector(self, sel):
-        """'operator.add' / 'bi.mod' -> the function object."""
-        ns, name = sel.split('.')
+    def selector(self, ns, name):
         return getattr(self.operator if ns == 'operator' else self.bi, name)
 
     def apply(self, case):
-        """case: {'via': 'method'|'dunder'|'rdunder'|'builtin'|'listfn', 'name': .., 'sel': ..,
-                  'args': [operand...]}"""
+        """case: {'via': 'pyop'|'meth'|'bi'|'listfn', 'name': .., 'args': [operand...], ...}"""
+        import math
         args = [self.build(a) for a in case['args']]
         via, name = case['via'], case['name']
-        if via == 'method':                  # a.name(b, ...)
+        if via == 'pyop':                    # Python operator syntax, resolved by the interpreter
+            if len(args) == 2:
+                return getattr(self.operator, name)(*args)
+            f = {'round': round, 'trunc': math.trunc, 'ceil': math.ceil, 'floor': math.floor}.get(name) \
+                or getattr(self.operator, name)
+            return f(args[0])
+        if via == 'meth':                    # a.name(b, ...)
             return getattr(args[0], name)(*args[1:])
-        if via == 'dunder':                  # python operator syntax: a <op> b, resolved by Python
-            return self.selector(case['sel'])(*args) if len(args) > 1 else self.selector(case['sel'])(args[0])
-        if via == 'builtin':                 # bi.name(a, b, ...)
+        if via == 'bi':                      # bi.name(a, b, ...)
             return getattr(self.bi, name)(*args)
-        if via == 'listfn':                  # utl.list_unop/binop/narop(sel, ...)
-            return getattr(self.utl, name)(self.selector(case['sel']), *args)
+        if via == 'listfn':                  # utl.list_unop/binop/narop(selector, ...)
+            t = {'list': list, 'tuple': tuple, 'chan': self.ChannelList}[case['t']]
+            sel = self.selector(case['ns'], case['sel'])
+            if name == 'list_narop':
+                return self.utl.list_narop(sel, *args, t=t)
+            return getattr(self.utl, name)(sel, *args, t)
         raise ValueError(via)
 
     def observe(self, obj, case):
@@ -191,7 +204,7 @@ class LiftRunner:
             kind = 'pat' if isinstance(obj, Pattern) else 'strm'
             s = stm.stream(obj)
             out = []
-            for _ in range(case.get('take', 12)):
+            for _ in range(case.get('take', 8)):
                 try:
                     out.append(self.observe_value(s.next()))
                 except stm.StopStream:
@@ -217,11 +230,120 @@ class LiftRunner:
         except Exception as e:
             return f'E:{type(e).__name__}'
 
-    # numeric oracle support: evaluate lifted vs direct with concrete numbers
+    # ---- numeric oracle: lifted evaluation vs direct application (independent of the model) ----
+    def build_numeric(self, d):
+        k = d[0]
+        if k == 'num':
+            return d[1][2:] if d[1].startswith('s:') else parse_num(d[1])
+        if k == 'fnn':                       # x -> x * a + b
+            a, b = parse_num(d[1]), parse_num(d[2])
+            return self.fn.Function(lambda x: x * a + b)
+        if k == 'fnnc':                      # composed: -(x * a + b)
+            a, b = parse_num(d[1]), parse_num(d[2])
+            return -self.fn.Function(lambda x: x * a + b)
+        if k == 'strm':
+            return self.stm.stream(self.Pseq([parse_num(i[1]) for i in d[1]]))
+        if k == 'pat':
+            return self.Pseq([parse_num(i[1]) for i in d[1]])
+        if k == 'list':
+            return [self.build_numeric(i) for i in d[1]]
+        if k == 'tuple':
+            return tuple(self.build_numeric(i) for i in d[1])
+        if k == 'chan':
+            return self.ChannelList([self.build_numeric(i) for i in d[1]])
+        if k == 'opnd':
+            return self.Operand(parse_num(d[1][1]))
+        raise ValueError(d)
+
+    def deep_eval(self, v, x0, take):
+        """Evaluate every lazy member: functions at x0, streams/patterns to ('strm', items, ended)."""
+        from sc3.seq.pattern import Pattern
+        if isinstance(v, self.fn.AbstractFunction):
+            return self.deep_eval(v(x0), x0, take)
+        if isinstance(v, (self.stm.Stream, Pattern)):
+            s = self.stm.stream(v)
+            out, ended = [], False
+            for _ in range(take):
+                try:
+                    out.append(self.deep_eval(s.next(), x0, take))
+                except self.stm.StopStream:
+                    ended = True
+                    break
+            return ('strm', out, ended)
+        if isinstance(v, self.Operand):
+            return self.deep_eval(v.value, x0, take)
+        if isinstance(v, (list, tuple)):
+            return [self.deep_eval(i, x0, take) for i in v]
+        return v
+
+    def spec_apply(self, f, ops, take, narop=False):
+        """The abstract spec: apply the numeric function to the evaluated operands — pointwise
+        for streams (ending with the shortest), element-wise with wrap-around for lists
+        (n-ary operators map over the first operand only)."""
+        if any(isinstance(o, tuple) and o and o[0] == 'strm' for o in ops):
+            n, ended = take, False
+            for o in ops:
+                if isinstance(o, tuple):
+                    if o[2] and len(o[1]) <= n:
+                        n, ended = len(o[1]), True
+                    else:
+                        n = min(n, len(o[1]))
+            items = []
+            for i in range(n):
+                items.append(self.spec_apply(f, [o[1][i] if isinstance(o, tuple) else o for o in ops], take, narop))
+            return ('strm', items, ended)
+        if narop:
+            if isinstance(ops[0], list):
+                return [self.spec_apply(f, [x] + ops[1:], take, True) for x in ops[0]]
+            return f(*ops)
+        lists = [o for o in ops if isinstance(o, list)]
+        if not lists:
+            return f(*ops)
+        if len(ops) == 1:
+            return [self.spec_apply(f, [x], take) for x in ops[0]]
+        a, b = ops
+        if isinstance(a, list) and isinstance(b, list):
+            if not a or not b:
+                return []
+            n = max(len(a), len(b))
+            return [self.spec_apply(f, [a[i % len(a)], b[i % len(b)]], take) for i in range(n)]
+        if isinstance(a, list):
+            return [self.spec_apply(f, [x, b], take) for x in a]
+        return [self.spec_apply(f, [a, y], take) for y in b]
+
+    def fmt_deep(self, v):
+        if isinstance(v, tuple) and v and v[0] == 'strm':
+            return ['strm'] + [self.fmt_deep(i) for i in v[1]] + (['stop'] if v[2] else [])
+        if isinstance(v, list):
+            return ['seq'] + [self.fmt_deep(i) for i in v]
+        return fmt_num(v)
+
     def run_numeric(self, case):
-        """case['args'] hold only numeric leaves (functions are x -> x*k + c).  Returns the
-        evaluated result of the lifted object and of direct application, as terms."""
-        raise NotImplementedError
+        """-> {'lifted': …, 'direct': …}: the composed object evaluated at x0, and the numeric
+        selector applied directly to the evaluated operands."""
+        take = case.get('take', 8)
+        x0 = parse_num(case['x0'])
+        out = {}
+        saved = self.build
+        self.build = self.build_numeric
+        try:
+            try:
+                out['lifted'] = self.fmt_deep(self.deep_eval(self.apply(case), x0, take))
+            except Exception as e:
+                out['lifted'] = f'E:{type(e).__name__}'
+            try:
+                ops = [self.deep_eval(self.build_numeric(a), x0, take) for a in case['args']]
+                if case['via'] == 'meth' and case.get('defaults'):
+                    ops += [parse_num(d) for d in case['defaults']]
+                f = self.selector(case['ns'], case['sel'])
+                narop = case.get('hook') == '_compose_narop' or case.get('kind') == 'narop' \
+                    or case.get('name') == 'list_narop'
+                out['direct'] = self.fmt_deep(self.spec_apply(f, ops, take, narop))
+            except Exception as e:
+                out['direct'] = f'E:{type(e).__name__}'
+        finally:
+            self.build = saved
+        return out
 
 
 def extract_ops(repo):
@@ -267,7 +389,10 @@ def run(payload):
         elif 'via' in case:
             if _lift is None:
                 _lift = LiftRunner()
-            out.append({'t': _lift.run(case)})
+            if case.get('numeric'):
+                out.append(_lift.run_numeric(case))
+            else:
+                out.append({'t': _lift.run(case)})
         else:
             out.append({'r': 'bad-case'})
     return out
